@@ -167,6 +167,9 @@ fn ref_array<const POS: usize, const N: usize, const ESZ: usize>(
 
 macro_rules! dec_array {
     ($h:ident, $pos:expr, $N:expr, $ty:ty, $esz:expr, $elem_sig:expr) => {
+        dec_array!($h, $pos, $N, $ty, $esz, $elem_sig, kani::any());
+    };
+    ($h:ident, $pos:expr, $N:expr, $ty:ty, $esz:expr, $elem_sig:expr, $be:expr) => {
         #[kani::proof]
         #[kani::unwind(10)]
         #[kani::stub(alloc::fmt::format, no_format)]
@@ -176,7 +179,7 @@ macro_rules! dec_array {
             // the input is exactly N bytes (truncated inputs are covered for the leaf types; here the array
             // length field itself decides how much of the buffer is consumed)
             let len: usize = $N;
-            let be: bool = kani::any();
+            let be: bool = $be;
             let data = Data::new(&buf[..len], ctx($pos, be));
             let r = data.deserialize_for_signature::<_, Arr2<$ty>>(Signature::static_array(&$elem_sig));
             let model = ref_array::<$pos, $N, $esz>(&buf, len, be);
@@ -200,13 +203,18 @@ macro_rules! dec_array {
         }
     };
 }
-dec_array!(c03_dec_ay_p0, 0, 6, u8, 1, Signature::U8);
-dec_array!(c03_dec_ay_p3, 3, 7, u8, 1, Signature::U8);
-dec_array!(c03_dec_aq_p0, 0, 8, u16, 2, Signature::U16);
-dec_array!(c03_dec_au_p0, 0, 12, u32, 4, Signature::U32);
-dec_array!(c03_dec_au_p2, 2, 14, u32, 4, Signature::U32);
-dec_array!(c03_dec_at_p0, 0, 16, u64, 8, Signature::U64);
-dec_array!(c03_dec_at_p4, 4, 12, u64, 8, Signature::U64);
+dec_array!(c03_dec_ay_p0_le, 0, 6, u8, 1, Signature::U8, false);
+dec_array!(c03_dec_ay_p0_be, 0, 6, u8, 1, Signature::U8, true);
+dec_array!(c03_dec_ay_p3_le, 3, 7, u8, 1, Signature::U8, false);
+dec_array!(c03_dec_ay_p3_be, 3, 7, u8, 1, Signature::U8, true);
+dec_array!(c03_dec_aq_p0_le, 0, 8, u16, 2, Signature::U16, false);
+dec_array!(c03_dec_aq_p0_be, 0, 8, u16, 2, Signature::U16, true);
+dec_array!(c03_dec_au_p0_le, 0, 12, u32, 4, Signature::U32, false);
+dec_array!(c03_dec_au_p0_be, 0, 12, u32, 4, Signature::U32, true);
+dec_array!(c03_dec_au_p2_le, 2, 14, u32, 4, Signature::U32, false);
+dec_array!(c03_dec_au_p2_be, 2, 14, u32, 4, Signature::U32, true);
+dec_array!(c03_dec_at_p4_le, 4, 12, u64, 8, Signature::U64, false);
+dec_array!(c03_dec_at_p4_be, 4, 12, u64, 8, Signature::U64, true);
 
 // ------------------------------------------------------------------ C01: file descriptors (array of two distinct fds)
 /// Environment stub: duplicating a descriptor (fcntl F_DUPFD_CLOEXEC). Returns a fresh descriptor number.
@@ -304,6 +312,9 @@ enc_struct_yu!(c01_enc_yu_p5, 5);
 /// array of one struct: `a(yu)` (8-byte element alignment), per offset
 macro_rules! enc_array_of_struct {
     ($h:ident, $pos:expr) => {
+        enc_array_of_struct!($h, $pos, kani::any());
+    };
+    ($h:ident, $pos:expr, $be:expr) => {
         #[kani::proof]
         #[kani::unwind(9)]
         #[kani::stub(alloc::fmt::format, no_format)]
@@ -311,7 +322,7 @@ macro_rules! enc_array_of_struct {
         fn $h() {
             static YU: Signature = Signature::static_structure(&[&Signature::U8, &Signature::U32]);
             let v: [(u8, u32); 1] = kani::any();
-            let be: bool = kani::any();
+            let be: bool = $be;
             let mut buf = [0u8; 32];
             let mut cur = Cursor::new(&mut buf[..]);
             let r = unsafe { to_writer_for_signature(&mut cur, ctx($pos, be), Signature::static_array(&YU), &v[..]) };
@@ -336,10 +347,14 @@ macro_rules! enc_array_of_struct {
 }
 enc_array_of_struct!(c01_enc_ayu_p0, 0);
 enc_array_of_struct!(c01_enc_ayu_p4, 4);
+enc_array_of_struct!(c01_enc_ayu_p4_le, 4, false);
 
 /// a variant holding a u32 (dynamic `Value`), per offset: signature `u` as a SIGNATURE, then the aligned value
 macro_rules! enc_variant_u {
     ($h:ident, $pos:expr) => {
+        enc_variant_u!($h, $pos, kani::any());
+    };
+    ($h:ident, $pos:expr, $be:expr) => {
         #[kani::proof]
         #[kani::unwind(9)]
         #[kani::stub(alloc::fmt::format, no_format)]
@@ -347,7 +362,7 @@ macro_rules! enc_variant_u {
         fn $h() {
             let x: u32 = kani::any();
             let v = zvariant::Value::U32(x);
-            let be: bool = kani::any();
+            let be: bool = $be;
             let mut buf = [0u8; 32];
             let mut cur = Cursor::new(&mut buf[..]);
             let r = unsafe { to_writer_for_signature(&mut cur, ctx($pos, be), Signature::Variant, &v) };
@@ -370,17 +385,18 @@ macro_rules! enc_variant_u {
 }
 enc_variant_u!(c01_enc_v_u_p0, 0);
 enc_variant_u!(c01_enc_v_u_p3, 3);
+enc_variant_u!(c01_enc_v_u_p3_be, 3, true);
 
 // ------------------------------------------------------------------ C03: one struct shape from arbitrary bytes, per offset
 macro_rules! dec_struct_yu {
-    ($h:ident, $pos:expr, $N:expr) => {
+    ($h:ident, $pos:expr, $N:expr, $be:expr) => {
         #[kani::proof]
         #[kani::unwind(10)]
         #[kani::stub(alloc::fmt::format, no_format)]
         #[kani::stub(<std::os::fd::OwnedFd as core::ops::Drop>::drop, no_close)]
         fn $h() {
             let buf: [u8; $N] = kani::any();
-            let be: bool = kani::any();
+            let be: bool = $be;
             let data = Data::new(&buf[..], ctx($pos, be));
             let r = data.deserialize_for_signature::<_, (u8, u32)>(Signature::static_structure(&[&Signature::U8, &Signature::U32]));
             // reference: pad to 8 with zeros, y, pad to 4 with zeros, u
@@ -414,5 +430,62 @@ macro_rules! dec_struct_yu {
         }
     };
 }
-dec_struct_yu!(c03_dec_yu_p0, 0, 8);
-dec_struct_yu!(c03_dec_yu_p5, 5, 11);
+dec_struct_yu!(c03_dec_yu_p0_le, 0, 8, false);
+dec_struct_yu!(c03_dec_yu_p0_be, 0, 8, true);
+dec_struct_yu!(c03_dec_yu_p5_le, 5, 11, false);
+dec_struct_yu!(c03_dec_yu_p5_be, 5, 11, true);
+
+// ------------------------------------------------------------------ C03: array of one-byte structs `a(y)` from arbitrary bytes (padding *between* elements)
+#[derive(Clone, Copy, Default, serde::Deserialize)]
+pub struct OneByte(pub u8);
+
+macro_rules! dec_array_of_struct {
+    ($h:ident, $be:expr) => {
+        #[kani::proof]
+        #[kani::unwind(10)]
+        #[kani::stub(alloc::fmt::format, no_format)]
+        #[kani::stub(<std::os::fd::OwnedFd as core::ops::Drop>::drop, no_close)]
+        fn $h() {
+            static Y1: Signature = Signature::static_structure(&[&Signature::U8]);
+            let buf: [u8; 17] = kani::any();
+            let be: bool = $be;
+            let data = Data::new(&buf[..], ctx(0, be));
+            let r = data.deserialize_for_signature::<_, Arr2<(u8,)>>(Signature::static_array(&Y1));
+            // reference for offset 0, 17 bytes: u32 L at 0, padding 4..8 zero (even when empty), elements are 1 byte
+            // at 8-aligned positions: valid L are 0 (no element), 1 (one element at 8), 9 (elements at 8 and 16 with
+            // zero padding 9..16).
+            let w = [buf[0], buf[1], buf[2], buf[3]];
+            let l = if be { u32::from_be_bytes(w) } else { u32::from_le_bytes(w) };
+            let pad_ok = buf[4] == 0 && buf[5] == 0 && buf[6] == 0 && buf[7] == 0;
+            let gap_ok = buf[9] == 0 && buf[10] == 0 && buf[11] == 0 && buf[12] == 0 && buf[13] == 0 && buf[14] == 0 && buf[15] == 0;
+            let want: Option<(usize, usize)> = if !pad_ok {
+                None
+            } else if l == 0 {
+                Some((0, 8))
+            } else if l == 1 {
+                Some((1, 9))
+            } else if l == 9 && gap_ok {
+                Some((2, 17))
+            } else {
+                None
+            };
+            match (&r, want) {
+                (Ok((a, used)), Some((count, mused))) => {
+                    kani::cover!(count == 2, "two elements accepted");
+                    assert!(a.n == count && *used == mused, "array of structs: count / consumed differ");
+                    assert!(count < 1 || (a.v[0].0 == buf[8]));
+                    assert!(count < 2 || (a.v[1].0 == buf[16]));
+                }
+                (Err(_), None) => {
+                    kani::cover!(l == 9, "two-element array with dirty padding rejected");
+                }
+                (Ok(_), None) => assert!(false, "array-of-structs decoder accepted an invalid encoding (non-zero padding / bad length)"),
+                (Err(_), Some(_)) => assert!(false, "array-of-structs decoder rejected a valid encoding"),
+            }
+            core::mem::forget(r);
+            core::mem::forget(data);
+        }
+    };
+}
+dec_array_of_struct!(c03_dec_a_y1_le, false);
+dec_array_of_struct!(c03_dec_a_y1_be, true);
